@@ -48,6 +48,11 @@ class TooBig(Exception):
 
 class Super:
     def __init__(self, F, root, families=None, maxdepth=7, maxnodes=60000, graph_cache=None):
+        import os
+        if os.environ.get('USA_TIER') == 'thorough':
+            # thorough tier: deeper splicing of family-internal callees and a larger node budget
+            if maxdepth == 7: maxdepth = 10
+            if maxnodes == 60000: maxnodes = 200000
         self.F = F
         self.root = root
         self.families = set(families or [root['_family']])
